@@ -576,9 +576,10 @@ func (vfs *MemFS) OpenFile(name string, flag int, perm fs.FileMode) (avfs.File, 
 		}
 
 		parent.mu.Lock()
-		defer parent.mu.Unlock()
 
 		if om&avfs.OpenWrite == 0 || !parent.checkPermission(avfs.OpenWrite|avfs.OpenLookup, vfs.User()) {
+			parent.mu.Unlock()
+
 			return (*MemFile)(nil), &fs.PathError{Op: op, Path: name, Err: vfs.err.PermDenied}
 		}
 
@@ -587,6 +588,8 @@ func (vfs *MemFS) OpenFile(name string, flag int, perm fs.FileMode) (avfs.File, 
 		child = parent.children[part]
 		if child == nil {
 			child = vfs.createFile(parent, part, perm)
+			parent.mu.Unlock()
+
 			f := &MemFile{
 				nd:       child,
 				vfs:      vfs,
@@ -596,6 +599,13 @@ func (vfs *MemFS) OpenFile(name string, flag int, perm fs.FileMode) (avfs.File, 
 			}
 
 			return f, nil
+		}
+
+		parent.mu.Unlock()
+
+		if _, ok := child.(*symlinkNode); ok {
+			// name became a symbolic link since it was looked up : start again to resolve it.
+			return vfs.OpenFile(name, flag, perm)
 		}
 	}
 
